@@ -104,7 +104,7 @@ def parse_prog(text):
 
 
 def campaign(c, ctx, r, nprogs, mask, tier, want_stats=False, variants=("pred", "tend", "stop"), ranks_list=(1,),
-             extra_cfgs=None, jobs=4, watchdog=25, delays=(None,), long_every=4):
+             extra_cfgs=None, jobs=4, watchdog=25, delays=(None,), long_every=4, only_cfgs=None, use_corpus=True):
     """runs nprogs generated programs under several configurations; returns a list of run records"""
     runs, progs = [], []
     k = 0
@@ -123,7 +123,7 @@ def campaign(c, ctx, r, nprogs, mask, tier, want_stats=False, variants=("pred", 
     # corpus programs of this property first (minimised past failures and targeted scenarios), each with its own configurations
     import glob
     corpus_jobs = []
-    for f in sorted(glob.glob(os.path.join(V.VERIF, "corpus", c.pid + "_*.txt"))):
+    for f in sorted(glob.glob(os.path.join(V.VERIF, "corpus", c.pid + "_*.txt"))) if use_corpus else []:
         text = open(f).read()
         pcfg = [l for l in text.split("\n") if l.startswith("# run ")]
         pr = dict(p=parse_prog(text), text=text, path=f, variant="pred", tend=0, idx=len(progs),
@@ -138,7 +138,7 @@ def campaign(c, ctx, r, nprogs, mask, tier, want_stats=False, variants=("pred", 
     for pr in progs:
         if pr["path"].startswith(os.path.join(V.VERIF, "corpus")):
             continue
-        cfgs = configs(r, tier, pr["p"]["lps"]) + list(extra_cfgs or [])
+        cfgs = (configs(r, tier, pr["p"]["lps"]) if only_cfgs is None else list(only_cfgs)) + list(extra_cfgs or [])
         for ci, (th, ck, gp) in enumerate(cfgs):
             for ranks in ranks_list:
                 if ranks > 1 and pr["p"]["lps"] < ranks:
@@ -206,7 +206,9 @@ def lp_campaign(c, ctx, r, nprogs, mask, gvt_slack=(0, 0, 1, 3), steps=400):
         return []
     runs = []
     for k in range(nprogs):
-        p = progen.gen_program(r, lps=r.choice([1, 2, 3, 5, 8]), target=r.choice([20, 40, 100]), heavy_mem=(k % 4 == 0), zero_ts=(k % 3 == 0))
+        sparse = (k % 2 == 1)      # silent handlers: history entries that are followed at once by a checkpoint
+        p = progen.gen_program(r, lps=r.choice([1, 2, 3, 5, 8]), target=r.choice([20, 40, 100]), heavy_mem=(k % 4 == 0), zero_ts=(k % 3 == 0),
+                               sparse=sparse)
         text = progen.render(p)
         pf = os.path.join(ctx["sd"], "lpprog%d.txt" % k)
         open(pf, "w").write(text)
@@ -214,7 +216,11 @@ def lp_campaign(c, ctx, r, nprogs, mask, gvt_slack=(0, 0, 1, 3), steps=400):
         script = []
         for _ in range(steps):
             x = r.below(10)
-            if x < 4:
+            if r.chance(1, 12):
+                # run-ahead pattern: a message is kept in flight while the LPs go on, GVT rounds happen below it, then it lands
+                script += ["H %d" % r.range(1, 2), "P %d" % r.range(1, 8), "G %d" % r.choice([0, 1, 3]), "P %d" % r.range(1, 8),
+                           "G 0", "P %d" % r.range(1, 4), "G 0", "P %d" % r.range(1, 4), r.choice(["A", "U 0", "U 1"])]
+            elif x < 4:
                 script.append("P %d" % r.range(1, 6))
             elif x < 6:
                 script.append("H %d" % r.range(1, 3))
@@ -225,7 +231,7 @@ def lp_campaign(c, ctx, r, nprogs, mask, gvt_slack=(0, 0, 1, 3), steps=400):
             else:
                 script.append("A")
         script.append("E")
-        ck = r.choice([1, 1, 2, 3, 5, 0])
+        ck = r.choice([1, 1, 2, 3, 5, 0]) if not sparse else r.choice([1, 1, 1, 2])
         tf = os.path.join(ctx["sd"], "lptrace%d.txt" % k)
         rc, so, se = V.run([exe, pf, str(ck)], inp="\n".join(script) + "\n", timeout=180,
                            env={"VERIF_TRACE_FILE": tf, "VERIF_TRACE_MASK": str(mask), "VERIF_WATCHDOG": "120"})
